@@ -197,7 +197,7 @@ func genDelivery(r *vlib.R, set data.Points) []data.Points {
 func runC01(tier string, _ []string) int {
 	c := vlib.NewCtx("C01", tier, "exploration")
 	vlib.SetPortBlock(1)
-	c.SetRule("per case a PRNG point set (1-12 identities x 1-6 versions; strings from a hostile pool incl. colliding concatenations (ab,'')/(a,b), keys '' and '0' of one type, quotes, Unicode; values +-0, +-Inf, subnormals, >2^53; tombstones; origins; data; timestamps distinct per identity over the whole int64-ns range and clustered) is delivered k times to k fresh nodes (node points) and k fresh edges (edge points), each under its own permutation x partition into acknowledged batches x re-deliveries; after every batch the node is read back (deleted included) and compared with the newest-wins reference model. distinct = (node|edge, order kind, number of batches, set features: collision pair / ''+'0' pair / in-batch duplicates)")
+	c.SetRule("per case a PRNG point set (1-12 identities x 1-6 versions; strings from a hostile pool incl. colliding concatenations (ab,'')/(a,b), keys '' and '0' of one type, quotes, Unicode; values +-0, +-Inf, subnormals, >2^53; tombstones; origins; data; timestamps distinct per identity over the whole int64-ns range and clustered) is delivered k times to k fresh nodes (node points) and k fresh edges (edge points), each under its own permutation x partition into acknowledged batches x re-deliveries; after every batch the node is read back (deleted included) and compared with the newest-wins reference model; a third of the nodes get a second placement (mirror or move below a group) before one of the batches and are then also read through the other parent, through parent \"all\" and through the group's child list. distinct = (node|edge, order kind, number of batches, set features: collision pair / ''+'0' pair / in-batch duplicates)")
 	c.Assume("equal timestamps on one identity, zero times and nodeType edge points are not generated (left open by the property); NaN belongs to C05")
 	nSets := c.N(60, 1500)
 	k := c.N(4, 8)
@@ -233,10 +233,43 @@ func runC01(tier string, _ []string) int {
 						return
 					}
 				}
+				// a second placement of the node (mirror below a group of its own, or a move there), made
+				// before one of the batches: every way of reading the node must still return each identity once
+				alt, altAt, moved := "", -1, false
+				if r.Chance(0.35) {
+					alt = fmt.Sprintf("c01g-%d-%v-%d-%s", i, edge, d, r.Ident(4))
+					altAt = r.Intn(len(batches) + 1)
+					moved = !edge && r.Chance(0.4)
+					if e, err := vlib.SendAck(nc, vlib.EdgeSubj(alt, in.RootID), data.Points{{Type: data.PointTypeTombstone, Time: time.Unix(1700000000, 0)}, {Type: data.PointTypeNodeType, Text: "group"}}); err != nil || e != "" {
+						c.Inconclusive(fmt.Sprintf("case %d: could not create group: %v %s", i, err, e))
+						return
+					}
+				}
+				placeAlt := func() bool {
+					if e, err := vlib.SendAck(nc, vlib.EdgeSubj(id, alt), data.Points{{Type: data.PointTypeTombstone, Time: time.Unix(1700000001, 0)}, {Type: data.PointTypeNodeType, Text: "c01Node"}}); err != nil || e != "" {
+						c.Violate("store:legal-write-refused", fmt.Sprintf("mirror edge refused: %v %s", err, e), wit)
+						return false
+					}
+					if moved {
+						if e, err := vlib.SendAck(nc, vlib.EdgeSubj(id, parent), data.Points{{Type: data.PointTypeTombstone, Time: time.Unix(1700000002, 0), Value: 1}}); err != nil || e != "" {
+							c.Violate("store:legal-write-refused", fmt.Sprintf("tombstone of the old edge refused: %v %s", err, e), wit)
+							return false
+						}
+					}
+					wit["second_placement"] = map[string]any{"parent": alt, "before_batch": altAt, "moved": moved}
+					return true
+				}
 				model := newestModel{}
 				var sent [][]ptW
 				ok := true
+				altPlaced := false
 				for bi, b := range batches {
+					if alt != "" && !createInFirst && bi == altAt {
+						if !placeAlt() {
+							return
+						}
+						altPlaced = true
+					}
 					batch := append(data.Points{}, b...)
 					if createInFirst && bi == 0 {
 						batch = append(batch, data.Point{Type: data.PointTypeNodeType, Text: "c01Node"})
@@ -282,6 +315,43 @@ func runC01(tier string, _ []string) int {
 						break
 					}
 					c.Count("prefix_comparisons", 1)
+					if altPlaced {
+						// the same node through its other placement, through parent "all" and in the group's child list
+						reads := map[string][]data.NodeEdge{}
+						var rerr error
+						if reads["parent=all"], rerr = client.GetNodes(nc, "all", id, "", true); rerr == nil {
+							if reads["other parent"], rerr = client.GetNodes(nc, alt, id, "", true); rerr == nil {
+								reads["children of other parent"], rerr = client.GetNodes(nc, alt, "all", "", true)
+							}
+						}
+						if rerr != nil || len(reads["parent=all"]) != 2 || len(reads["other parent"]) != 1 || len(reads["children of other parent"]) != 1 {
+							c.Violate("store:node-unreadable", fmt.Sprintf("a node with two placements is not returned once per placement: %v (all=%d, other parent=%d, children=%d)", rerr, len(reads["parent=all"]), len(reads["other parent"]), len(reads["children of other parent"])), wit)
+							ok = false
+							break
+						}
+						for how, ns := range reads {
+							for _, n := range ns {
+								var got data.Points
+								switch {
+								case !edge:
+									got = n.Points
+								case n.Parent == parent:
+									got = n.EdgePoints
+								default:
+									continue
+								}
+								if sig, what := storedDiff(model, got, true); sig != "" {
+									wit["read"] = witnessPoints(got)
+									c.Violate(sig, fmt.Sprintf("after batch %d of %d, read through %s (placement below %s): %s", bi+1, len(batches), how, n.Parent, what), wit)
+									ok = false
+								}
+							}
+						}
+						if !ok {
+							break
+						}
+						c.Count("multi_placement_reads", 1)
+					}
 				}
 				if !ok {
 					return
@@ -300,7 +370,14 @@ func runC01(tier string, _ []string) int {
 				if nb > 8 {
 					nb = 8
 				}
-				c.Distinct(fmt.Sprintf("edge=%v batches=%d%s%s", edge, nb, feat, dup))
+				pl := ""
+				if altPlaced {
+					pl = " mirrored"
+					if moved {
+						pl = " moved"
+					}
+				}
+				c.Distinct(fmt.Sprintf("edge=%v batches=%d%s%s%s", edge, nb, feat, dup, pl))
 				if i < 2 && d == 0 {
 					c.Sample(map[string]any{"edge": edge, "batches": sent})
 				}
